@@ -162,6 +162,20 @@ impl Context {
             .insert_built_in(bare_name, q, Variant::from(value));
     }
 
+    /// Number of context states, whether the top one is collecting arguments,
+    /// and the number of memory blocks.
+    #[cfg(feature = "verif")]
+    pub fn verif_depths(&self) -> (usize, bool, usize) {
+        (
+            self.states.len(),
+            self.states
+                .last()
+                .map(|s| s.arguments.is_some())
+                .unwrap_or(false),
+            self.memory_blocks.len(),
+        )
+    }
+
     #[cfg(test)]
     pub fn get_by_name(&self, name: &rusty_parser::Name) -> Variant {
         self.variables()
